@@ -1,6 +1,7 @@
 pub mod c02;
 pub mod c03;
 pub mod c04;
+pub mod c05;
 pub mod c07;
 pub mod c09;
 pub mod c10;
@@ -18,6 +19,7 @@ pub fn by_id(id: &str) -> Option<Box<dyn Property>> {
         "C02" => Some(Box::new(c02::C02)),
         "C03" => Some(Box::new(c03::C03)),
         "C04" => Some(Box::new(c04::C04)),
+        "C05" => Some(Box::new(c05::C05)),
         "C07" => Some(Box::new(c07::C07)),
         "C09" => Some(Box::new(c09::C09)),
         "C10" => Some(Box::new(c10::C10)),
@@ -30,4 +32,4 @@ pub fn by_id(id: &str) -> Option<Box<dyn Property>> {
         _ => None,
     }
 }
-pub const ALL: &[&str] = &["C02", "C03", "C04", "C07", "C09", "C10", "C11", "C12", "C13", "C18", "C19", "C20"];
+pub const ALL: &[&str] = &["C02", "C03", "C04", "C05", "C07", "C09", "C10", "C11", "C12", "C13", "C18", "C19", "C20"];
